@@ -479,6 +479,16 @@ class AbsMatch(AbstractValue):
     def abs_method(self, interp, name, args, kwargs):
         if not self.matched(interp):
             raise Raised(ExcVal('AttributeError', ('NoneType', name)))
+        if name in ('group', 'start', 'end', 'span') and any(isinstance(a, str) for a in args):
+            # named groups: m.group('leader') is m.group(<its number>)
+            gi = self.rx.compiled().groupindex
+            try:
+                args = [gi[a] if isinstance(a, str) else a for a in args]
+            except KeyError as e:
+                raise Raised(ExcVal('IndexError', ('no such group %s' % e,)))
+        if name == 'groupdict':
+            gi = self.rx.compiled().groupindex
+            return {k: self.group(i) for k, i in gi.items()}
         if name == 'group':
             if not args:
                 return self.group(0)
